@@ -5,11 +5,11 @@ open AnnVerif AnnVerif.Drv AnnVerif.Crash
 structure DSt where
   wins : List (Int × List W) := []
 
-/-- label classes -> write classes; an `ethdb.batch` before the application marker flushes the trie,
-    after it the receipts -/
-def classify : Bool → List String → List W
+/-- label classes -> write classes; the first `ethdb.batch` of a commit flushes the state trie, the
+    second the receipts -/
+def classify : Nat → List String → List W
   | _, [] => []
-  | seenMarker, l :: t =>
+  | nBatch, l :: t =>
     let w : W :=
       if l == "godb.set:H" then .bmeta
       else if l == "godb.set:P" then .part
@@ -20,9 +20,13 @@ def classify : Bool → List String → List W
       else if l == "godb.setsync:stateIntermediateKey" then .interm
       else if l == "godb.setsync:lastblock" || l == "godb.set:lastblock" then .marker
       else if l == "godb.setsync:stateKey" then .stateKey
-      else if l == "ethdb.batch:ethdb.batch" then (if seenMarker then .receipts else .trie)
+      else if l == "ethdb.batch:ethdb.batch" then (if nBatch == 0 then .trie else if nBatch == 1 then .receipts else .other)
       else .other
-    w :: classify (seenMarker || w == .marker) t
+    w :: classify (if l == "ethdb.batch:ethdb.batch" then nBatch + 1 else nBatch) t
+
+/-- K2 on the recorded order: the ordering facts hold at every crash point of every window -/
+def allOrdered (wins : List (Int × List W)) : Bool :=
+  wins.all fun (_, w) => (List.range (w.length + 2)).all fun j => orderedB (crashDisk w j)
 
 def off (b : Bool) : String := if b then "0" else "-1"
 
@@ -37,9 +41,9 @@ def step (s : DSt) (line : String) : DSt × String :=
   | "plan" :: rest =>
     let wins := rest.filterMap fun w =>
       match w.splitOn "=" with
-      | [h, ls] => (parseInt h).map fun h => (h, classify false (if ls.isEmpty then [] else ls.splitOn ","))
+      | [h, ls] => (parseInt h).map fun h => (h, classify 0 (if ls.isEmpty then [] else ls.splitOn ","))
       | _ => none
-    ({ s with wins := wins }, "ok")
+    ({ s with wins := wins }, "ok ordered=" ++ showBool (allOrdered wins))
   | "crash" :: _ =>
     match parseInt (g "h"), parseNat (g "j"), parseNat (g "j2") with
     | some h, some j, some j2 =>
